@@ -161,13 +161,13 @@ def conv_ty(n: ast.AST, var):
 def _ty_or_opaque(n, var):
     try:
         return conv_ty(n, var)
-    except Opaque:
+    except Exception:  # noqa: BLE001
         return ("opaque",)
 
 
 def conv_list(n: ast.AST):
-    n = _strip_cast(n)
     try:
+        n = _strip_cast(n)
         if isinstance(n, (ast.Tuple, ast.List)) and not n.elts:
             return ("empty",)
         if isinstance(n, (ast.Tuple, ast.List)):
@@ -178,13 +178,20 @@ def conv_list(n: ast.AST):
                 return ("comp", _ty_or_opaque(n.elt, g.target.id), conv_src(g.iter))
         if isinstance(n, ast.BinOp) and isinstance(n.op, ast.Add):
             return ("append", conv_list(n.left), conv_list(n.right))
-    except Opaque:
+    except Exception:  # noqa: BLE001 - Opaque, or an AST shape nobody anticipated: never raise
         pass
     return ("opaque",)
 
 
 def conv_out(n: ast.AST):
     """`len(G.requested_results) [- k | + k]` -> (graph variable name, minus)."""
+    try:
+        return _conv_out(n)
+    except Exception:  # noqa: BLE001
+        return None
+
+
+def _conv_out(n: ast.AST):
     minus = 0
     if isinstance(n, ast.BinOp) and isinstance(n.op, (ast.Sub, ast.Add)):
         k = _int_const(n.right)
@@ -326,7 +333,11 @@ def extract_modules() -> dict:
         found = {}
         for fn in mod.body:
             if isinstance(fn, ast.FunctionDef) and any(_is_subgraph_call(n) for n in ast.walk(fn)):
-                found[fn.name] = extract_ctor(fn)
+                try:
+                    found[fn.name] = extract_ctor(fn)
+                except Exception as e:  # noqa: BLE001
+                    found[fn.name] = {"subgraphs": [("?", ("opaque",))], "outGraph": "?", "outMinus": 0,
+                                      "problems": [f"extraction failed: {type(e).__name__}: {e}"]}
         out[p.stem] = found
     return out
 
